@@ -1,4 +1,5 @@
 pub mod sandbox;
+pub mod sched;
 pub mod space;
 pub mod workers;
 
